@@ -179,3 +179,169 @@ pub fn eval_flags(_op: &str, input: &mut Value) -> OpResult {
     "var_other": vf.iter().filter(|(k, _)| **k != types_key && **k != "mod").map(|(k, v)| ((*k).to_string(), slim(v))).collect::<serde_json::Map<_, _>>(),
   }))
 }
+
+// ---------------------------------------------------------------------------------------------
+// C19: the same spec with inert text and with a payload at ONE text-bearing position
+
+struct Eraser {
+  ids: bool,
+  lits: Vec<String>,
+  fmt_lits: Vec<String>,
+}
+
+fn erase_tokens(ts: proc_macro2::TokenStream, er: &mut Eraser, in_fmt_macro: bool) -> String {
+  use proc_macro2::TokenTree;
+  let mut out = String::new();
+  let mut first_lit_in_macro = in_fmt_macro;
+  let mut prev_ident: Option<String> = None;
+  let mut prev_bang = false;
+  let mut saw_comma = false;
+  for tt in ts {
+    match tt {
+      TokenTree::Group(g) => {
+        // `write!(f, "…")` / `format!("…")` / `println!("…")`: the format string is the first string literal
+        // (after the first comma for write!/writeln!)
+        let macro_name = if prev_bang { prev_ident.clone() } else { None };
+        let is_fmt = macro_name.as_deref().is_some_and(|m| matches!(m, "write" | "writeln" | "format" | "println" | "print" | "eprintln" | "panic" | "format_args" | "bail" | "anyhow" | "context"));
+        let inner = erase_tokens(g.stream(), er, is_fmt);
+        // formatting artefacts of prettyplease (line wrapping): trailing commas before a closing
+        // delimiter, and `=> { expr }` instead of `=> expr,`
+        let inner = inner.trim_end().trim_end_matches(',').to_string();
+        let after_fat_arrow = out.trim_end().ends_with("=>");
+        let has_top_semi = g.stream().into_iter().any(|t| matches!(&t, TokenTree::Punct(p) if p.as_char() == ';'));
+        if after_fat_arrow && g.delimiter() == proc_macro2::Delimiter::Brace && !has_top_semi {
+          out.push_str(&inner);
+          out.push(',');
+        } else {
+          let (o, c) = match g.delimiter() {
+            proc_macro2::Delimiter::Parenthesis => ("(", ")"),
+            proc_macro2::Delimiter::Brace => ("{", "}"),
+            proc_macro2::Delimiter::Bracket => ("[", "]"),
+            proc_macro2::Delimiter::None => ("", ""),
+          };
+          out.push_str(o);
+          out.push_str(&inner);
+          out.push_str(c);
+        }
+        prev_ident = None;
+        prev_bang = false;
+      }
+      TokenTree::Ident(i) => {
+        let s = i.to_string();
+        out.push_str(if er.ids { "I" } else { &s });
+        out.push(' ');
+        prev_ident = Some(s);
+        prev_bang = false;
+      }
+      TokenTree::Punct(p) => {
+        if p.as_char() == '!' {
+          prev_bang = true;
+        } else {
+          prev_bang = false;
+          prev_ident = None;
+        }
+        if p.as_char() == ',' {
+          saw_comma = true;
+        }
+        out.push(p.as_char());
+      }
+      TokenTree::Literal(l) => {
+        let s = l.to_string();
+        if s.starts_with('"') || s.starts_with("r\"") || s.starts_with("r#") || s.starts_with("b\"") {
+          let val = syn::parse_str::<syn::LitStr>(&s).map(|x| x.value()).unwrap_or_else(|_| s.clone());
+          if first_lit_in_macro {
+            er.fmt_lits.push(val.clone());
+            first_lit_in_macro = false;
+          }
+          er.lits.push(val);
+          out.push_str("\"\"");
+        } else {
+          out.push_str(&s);
+        }
+        out.push(' ');
+        prev_ident = None;
+        prev_bang = false;
+      }
+    }
+  }
+  let _ = saw_comma;
+  while out.contains(",,") {
+    out = out.replace(",,", ",");
+  }
+  out
+}
+
+fn file_skeleton(code: &str, ids: bool) -> Result<(String, Vec<String>, Vec<String>, Vec<String>), String> {
+  let file = syn::parse_file(code).map_err(|e| e.to_string())?;
+  let mut docs = vec![];
+  // doc attributes are carriers: collect their text, drop them from the skeleton
+  struct DocStrip<'a>(&'a mut Vec<String>);
+  impl syn::visit_mut::VisitMut for DocStrip<'_> {
+    fn visit_attributes_mut(&mut self, attrs: &mut Vec<syn::Attribute>) {
+      attrs.retain(|a| {
+        if a.path().is_ident("doc") {
+          if let syn::Meta::NameValue(nv) = &a.meta {
+            if let syn::Expr::Lit(syn::ExprLit { lit: syn::Lit::Str(s), .. }) = &nv.value {
+              self.0.push(s.value());
+            }
+          }
+          false
+        } else {
+          true
+        }
+      });
+    }
+  }
+  let mut f2 = file.clone();
+  syn::visit_mut::VisitMut::visit_file_mut(&mut DocStrip(&mut docs), &mut f2);
+  let mut er = Eraser { ids, lits: vec![], fmt_lits: vec![] };
+  let skel = erase_tokens(quote::ToTokens::to_token_stream(&f2), &mut er, false);
+  // file-level `//!` header lines are comments in the emitted text, not tokens
+  let header: Vec<String> = code.lines().filter(|l| l.starts_with("//!")).map(|l| l.trim_start_matches("//!").to_string()).collect();
+  docs.extend(header);
+  Ok((skel, er.lits, docs, er.fmt_lits))
+}
+
+pub fn eval_inject(_op: &str, input: &mut Value) -> OpResult {
+  let mut a = input.clone();
+  a["spec"] = input["spec_inert"].clone();
+  let mut b = input.clone();
+  b["spec"] = input["spec_payload"].clone();
+  let ra = k_gen::generate(&a);
+  let rb = k_gen::generate(&b);
+  let (fa, fb) = match (ra, rb) {
+    (Ok((fa, _)), Ok((fb, _))) => (fa, fb),
+    (Err(ea), Err(eb)) => return Ok(json!({"both_failed": [ea, eb]})),
+    (Ok(_), Err(e)) => return Ok(json!({"payload_failed": e})),
+    (Err(e), Ok(_)) => return Ok(json!({"inert_failed": e})),
+  };
+  let mut out = serde_json::Map::new();
+  let mut files = vec![];
+  for (name, ca) in &fa {
+    let Some(cb) = fb.get(name) else {
+      files.push(json!({"file": name, "missing_in_payload": true}));
+      continue;
+    };
+    let sa = file_skeleton(ca, false);
+    let sb = file_skeleton(cb, false);
+    match (sa, sb) {
+      (Ok((ska, _, _, _)), Ok((skb, lits, docs, fmts))) => {
+        let (sha, _, _, _) = file_skeleton(ca, true).unwrap();
+        let (shb, _, _, _) = file_skeleton(cb, true).unwrap();
+        let first_diff = ska.chars().zip(skb.chars()).position(|(x, y)| x != y).map(|i| {
+          let lo = i.saturating_sub(60);
+          json!([ska.chars().skip(lo).take(140).collect::<String>(), skb.chars().skip(lo).take(140).collect::<String>()])
+        });
+        let shape_diff = sha.chars().zip(shb.chars()).position(|(x, y)| x != y).map(|i| {
+          let lo = i.saturating_sub(80);
+          json!([sha.chars().skip(lo).take(160).collect::<String>(), shb.chars().skip(lo).take(160).collect::<String>()])
+        });
+        files.push(json!({"file": name, "skel_equal": ska == skb, "shape_equal": sha == shb, "first_diff": first_diff, "shape_diff": shape_diff, "lits": lits, "docs": docs, "fmt_lits": fmts}));
+      }
+      (_, Err(e)) => files.push(json!({"file": name, "payload_parse_error": e})),
+      (Err(e), _) => files.push(json!({"file": name, "inert_parse_error": e})),
+    }
+  }
+  out.insert("files".into(), Value::Array(files));
+  Ok(Value::Object(out))
+}
